@@ -1,7 +1,9 @@
 SPECIFICATION Spec
 CONSTANTS
   NStmt = 2
-  Patterns <- PatQuick
-  TailPatterns <- TailQuick
+  Patterns <- PatThorough
+  TailPatterns <- TailThorough
+  JoinOpts <- JoinAll
+  EatOpts <- EatQuick
   LeadModes <- LeadInts
   TrailModes <- TrailInts
